@@ -104,15 +104,17 @@ Definition manual_resolve_topic_alias (maximum_alias_value : N) (m : amap) (alia
   | None => no_resolution
   end.
 
-(* LruOutboundAliasResolver::resolve_topic_alias 189-221.  `(self.cache.len() + 1) as u16`
-   (line 206) truncates: with 65535 cached entries the candidate alias is 0. *)
+(* LruOutboundAliasResolver::resolve_topic_alias 189-221 (after fix 10d5c82 of D22: the recycle
+   condition is `self.cache.len() >= self.current_maximum_alias_value as usize`; before the fix it
+   was `alias_value > current_maximum` with alias_value = `(len + 1) as u16`, which wrapped to 0
+   for len = 65535).  The candidate is still computed as `(self.cache.len() + 1) as u16`. *)
 Definition lru_resolve_topic_alias (cur : N) (c : lru) (topic : bytes) : outcome resolution :=
   if cur =? 0 then Ok {| r_skip_topic := false; r_alias := None |}
   else match lru_peek c topic with
   | Some alias_value => Ok {| r_skip_topic := true; r_alias := Some alias_value |}
   | None =>
       let alias_value := u16 (len c + 1) in
-      if cur <? alias_value then
+      if cur <=? len c then
         match lru_peek_lru c with
         | Some (_, recycled_alias) => Ok {| r_skip_topic := false; r_alias := Some recycled_alias |}
         | None => Panic 40                       (* panic!("Illegal state in LRU ...") line 211 *)
